@@ -212,7 +212,26 @@ class Engine(object):
             return {'True': True, 'False': False, 'None': None}[e.id]
         if e.id in ('float', 'int', 'str', 'bool', 'list', 'tuple'):
             return ('__name__', e.id)
+        c = self.module_constant(e.id)
+        if c is not None:
+            return c[0]
         raise Unsupported("unbound name %s at line %d" % (e.id, e.lineno))
+
+    def module_constant(self, name):
+        """a module-level `NAME = <number>` of the module the current function lives in (assigned exactly once)"""
+        f = self.funcs.get(self.cur_func)
+        if f is None:
+            return None
+        from . import source
+        for m in list(source._cache.values()):
+            if m.funcs.get(self.cur_func) is f:
+                hits = [n for n in m.tree.body if isinstance(n, ast.Assign) and len(n.targets) == 1 and isinstance(n.targets[0], ast.Name)
+                        and n.targets[0].id == name]
+                if len(hits) == 1 and isinstance(hits[0].value, ast.Constant) and isinstance(hits[0].value.value, (int, float)) \
+                        and not isinstance(hits[0].value.value, bool):
+                    v = hits[0].value.value
+                    return (v if isinstance(v, int) else num(v),)
+        return None
 
     def ev_UnaryOp(self, e, st, pc):
         v = self.ev(e.operand, st, pc)
@@ -312,6 +331,18 @@ class Engine(object):
 
     def ev_BoolOp(self, e, st, pc):
         isand = isinstance(e.op, ast.And)
+        if len(e.values) == 2:
+            # Python returns an OPERAND, not a truth value: `a or b` is a when a is truthy, else b. Matters when the
+            # operands are numbers (`ival[0] or self.x[0]`); for booleans it coincides with the logical connective
+            a = self.ev(e.values[0], st, pc)
+            isnum = lambda v: (isinstance(v, (int, Fraction, float, NF)) and not isinstance(v, bool)) or (is_z3(v) and v.sort() != B)
+            if isnum(a):
+                ta = self.truth(a, st, pc, e)
+                b = self.ev(e.values[1], st, pc.guarded(ta if isand else bnot(ta)))
+                if isnum(b):
+                    return ite(ta, b, a) if isand else ite(ta, a, b)
+                tb = self.truth(b, st, pc, e)
+                return band(ta, tb) if isand else bor(ta, tb)
         acc = True if isand else False
         g = True
         for v in e.values:
@@ -772,6 +803,20 @@ class Engine(object):
             return st.heap[a.id]['spikes'].n
         raise Unsupported("len of %r" % (a,))
 
+    def bi_getattr(self, args, kw, st, pc, node):
+        obj, name = args[0], args[1]
+        if not isinstance(obj, Rec) or not isinstance(name, str):
+            raise Unsupported("getattr at line %d" % node.lineno)
+        f = st.heap[obj.id]
+        if name in f:
+            return f[name]
+        d = self.ctor_default(obj.cls, name)
+        if d is not None:
+            return d[0]
+        if len(args) > 2:
+            return args[2]
+        raise PyRaise('AttributeError')
+
     def bi_abs(self, args, kw, st, pc, node):
         return rabs(args[0])
     bi_fabs = bi_abs
@@ -1132,10 +1177,35 @@ class Engine(object):
             return LazyArr(n_, lambda k: close(st.elem(a, k) if aa else a, st.elem(b, k) if ab else b))
         return close(a, b)
 
+    def bi_np_array_equal(self, args, kw, st, pc, node):
+        """same shape and all elements equal (different lengths: False, no error)"""
+        a, b = args[0], args[1]
+        if not (isinstance(a, (ArrV, LazyArr)) and isinstance(b, (ArrV, LazyArr))):
+            raise Unsupported("np.array_equal of non-arrays")
+        same_n = cmp('==', a.n, b.n)
+        if same_n is False:
+            return False
+        if isinstance(a.n, int) and isinstance(b.n, int):
+            return band(*[cmp('==', split(st.elem(a, k))[0], split(st.elem(b, k))[0]) for k in range(a.n)])
+        if self.mode == 'P':
+            k = fresh('keq', I)
+            return z3.And(toB(same_n), z3.ForAll([k], z3.Implies(z3.And(k >= 0, k < toI(a.n)), split(st.elem(a, k))[0] == split(st.elem(b, k))[0])))
+        raise Unsupported("np.array_equal over symbolic length")
+
+    def bi_np_allclose(self, args, kw, st, pc, node):
+        """np.all(np.isclose(a, b)); arrays of different length do not broadcast here: a run-time error in numpy"""
+        a, b = args[0], args[1]
+        if isinstance(a, (ArrV, LazyArr)) and isinstance(b, (ArrV, LazyArr)):
+            self.oblige("allclose-shape@%d" % node.lineno, pc, cmp('==', a.n, b.n))
+        return self.bi_np_all([self.bi_np_isclose(args, kw, st, pc, node)], {}, st, pc, node)
+
     def bi_np_any(self, args, kw, st, pc, node):
         a = args[0]
         if isinstance(a, (ArrV, LazyArr)):
             if not isinstance(a.n, int):
+                if self.mode == 'P':
+                    k = fresh('kany', I)
+                    return z3.Exists([k], z3.And(k >= 0, k < toI(a.n), toB(self.truth(st.elem(a, k), st, pc, node))))
                 raise Unsupported("np.any over symbolic length")
             return bor(*[self.truth(st.elem(a, k), st, pc, node) for k in range(a.n)])
         return self.truth(a, st, pc, node)
@@ -1161,6 +1231,9 @@ class Engine(object):
         a = args[0]
         if isinstance(a, (ArrV, LazyArr)):
             if not isinstance(a.n, int):
+                if self.mode == 'P':
+                    k = fresh('kall', I)
+                    return z3.ForAll([k], z3.Implies(z3.And(k >= 0, k < toI(a.n)), toB(self.truth(st.elem(a, k), st, pc, node))))
                 raise Unsupported("np.all over symbolic length")
             return band(*[self.truth(st.elem(a, k), st, pc, node) for k in range(a.n)])
         return self.truth(a, st, pc, node)
